@@ -6,5 +6,5 @@ trap "rm -rf $HYPOTHESIS_STORAGE_DIRECTORY /repo/.hypothesis" EXIT
 echo "== pinned (installed wheel) =="
 /venv/bin/python -m pytest -q -p no:cacheprovider --timeout=900 --continue-on-collection-errors 2>&1 | tail -1
 echo "== suite against /repo/src =="
-PYTHONPATH=/repo/src MPLBACKEND=Agg /venv/bin/python -m pytest -q -p no:cacheprovider --timeout=900 --continue-on-collection-errors 2>&1 | tail -8
+PYTHONPATH=/repo/src MPLBACKEND=Agg /venv/bin/python -m pytest -q -p no:cacheprovider --timeout=900 --continue-on-collection-errors --hypothesis-seed=0 2>&1 | tail -8
 git -C /repo status --short | grep -v '^??' | head
